@@ -21,7 +21,9 @@ done
 for i in $(seq 1 $N); do
   mine=()
   for j in "${!ids[@]}"; do [ $(( j % N + 1 )) = $i ] && mine+=("${ids[$j]}"); done
-  ( cd /tmp/psw-$i/verif && VERIF_REPO=/tmp/psw-$i/repo SWEEP_OUT=build/psw.tsv lib/seeded_sweep.sh "${mine[@]}" > /tmp/psw-$i/log 2>&1 ) &
+  # a private Go build cache per worker, removed with the copy: every mutated tree leaves ~100 MB of cache entries behind
+  # (319 changes filled the shared cache with 88 GB once)
+  ( cd /tmp/psw-$i/verif && GOCACHE=/tmp/psw-$i/gocache VERIF_REPO=/tmp/psw-$i/repo SWEEP_OUT=build/psw.tsv lib/seeded_sweep.sh "${mine[@]}" > /tmp/psw-$i/log 2>&1 ) &
 done
 wait
 : > $OUT
